@@ -1,16 +1,16 @@
 import QipVerif.Util.Proto
 import QipVerif.Util.RatProto
 import QipVerif.Model.Concat
-/-! Driver for the concatenation model (C12).  Rationals are `p/q` or `p`.
+import QipVerif.Gen.ConcatSrc
+/-! Driver for the concatenation model (C12), run on the description of the source that `py/props/c12.py` regenerates
+(`Gen/ConcatSrc.lean`).  Rationals are `p/q` or `p`.  `scale=r` multiplies the tolerance constants of the source (default 1).
 
 * `proc w=<wave>`                                     → `ok <mode> <step> <gate_tlist> <coeffs>` | `err <kind>`
 * `idle mode=d|c start=r last=r step=r`               → `ok <tlist>` | `err <kind>`
-* (`skipzero=1` on `concat` / `compile`: fixes/C12-2.patch, a channel without pulse is printed `~`; `dropzero=1` on `compile`: zero-duration instructions dropped before scheduling;
-  `gaprel=r` on `concat` / `compile`: fixes/C12-3.patch, idle-gap threshold r * largest start time)
-* `concat first=tol|struct tau=r chans=<chan>!<chan>…` → `ok <tlist>:<coeffs>!…` | `err <kind>`
+* `concat [scale=r] [chans=<chan>!<chan>…]`           → `ok <tlist>:<coeffs>!…` (`~` for a channel left empty) | `err <kind>`
      `<chan>` = `<start>@<wave>;<start>@<wave>;…` (`-` for a channel without instruction),
      `<wave>` = `s:<t>:<c>` | `a:<t,t,…>:<c,c,…>` | `m:<t,t,…>:<c>`
-* `compile first=.. tau=r mode=none|sched starts=r,r,… perm=i,j,… instrs=<instr>;<instr>;…`
+* `compile [scale=r] mode=none|sched starts=r,r,… perm=i,j,… instrs=<instr>;<instr>;…`
      `<instr>` = `<tl>@<label>=<coef>&<label>=<coef>…`, `<tl>` = `s:<t>` | `a:<t,…>`, `<coef>` = `s:<c>` | `a:<c,…>`
      → `ok <label>:<tlist>:<coeffs>!…` | `ok none` | `err <kind>` | `unmodelled`
 -/
@@ -65,18 +65,13 @@ def instr? (s : String) : Option Instr :=
     | _, _ => none
   | _ => none
 
-def first? (fs : List String) : Option Bool :=
-  match fStr? fs "first" with
-  | some "tol" => some true
-  | some "struct" => some false
-  | _ => none
-
 def showChan (r : List Rat × List Rat) : String := showRats r.1 ++ ":" ++ showRats r.2
 def showChanO : Option (List Rat × List Rat) → String
   | some r => showChan r
   | none => "~"
-def skipZ (fs : List String) : Bool := fNat? fs "skipzero" = some 1
-def gapR (fs : List String) : Option Rat := fRat? fs "gaprel"
+
+/-- the source description of the working tree, tolerances scaled by `scale=` (default 1) -/
+def srcOf (fs : List String) : Src := Gen.concatSrc.scale ((fRat? fs "scale").getD 1)
 
 def step (line : String) : String :=
   let fs := fields line
@@ -84,7 +79,7 @@ def step (line : String) : String :=
   | some "proc" =>
     match (fStr? fs "w").bind wave? with
     | some w =>
-      match procPulse w with
+      match procPulseS Gen.concatSrc.proc w with
       | .error e => "err " ++ errName e
       | .ok p => s!"ok {if p.mode = .discrete then "d" else "c"} {showRat p.step} {showRats p.gt} {showRats p.cs}"
     | none => "bad-op"
@@ -92,43 +87,24 @@ def step (line : String) : String :=
     match fStr? fs "mode", fRat? fs "start", fRat? fs "last", fRat? fs "step" with
     | some m, some st, some la, some sp =>
       if m ≠ "d" ∧ m ≠ "c" then "bad-op" else
-      match idle (if m = "d" then .discrete else .continuous) st la sp with
+      match idleS Gen.concatSrc.idle (if m = "d" then .discrete else .continuous) st la sp with
       | .error e => "err " ++ errName e
       | .ok l => "ok " ++ showRats l
     | _, _, _, _ => "bad-op"
   | some "concat" =>
-    match first? fs, fRat? fs "tau", (fStr? fs "chans").bind (fun s => (s.splitOn "!").mapM chan?) with
-    | some bt, some τ, some chans =>
-      if (gapR fs).isSome then
-        match concatenateG (skipZ fs) ((gapR fs).getD 0) τ chans with
-        | .error e => "err " ++ errName e
-        | .ok outs => "ok " ++ "!".intercalate (outs.map showChanO)
-      else if skipZ fs then
-        match concatenateZ bt τ chans with
-        | .error e => "err " ++ errName e
-        | .ok outs => "ok " ++ "!".intercalate (outs.map showChanO)
-      else
-      match concatenate bt τ chans with
+    let chans? : Option (List (List (Rat × Wave))) :=
+      match fStr? fs "chans" with
+      | none => some []
+      | some s => (s.splitOn "!").mapM chan?
+    match chans? with
+    | some chans =>
+      match concatenateS (srcOf fs) chans with
       | .error e => "err " ++ errName e
-      | .ok outs => "ok " ++ "!".intercalate (outs.map showChan)
-    | _, _, _ => if fStr? fs "chans" = none then
-        (match first? fs, fRat? fs "tau" with
-          | some bt, some τ =>
-            if (gapR fs).isSome then
-              match concatenateG (skipZ fs) ((gapR fs).getD 0) τ [] with
-              | .error e => "err " ++ errName e
-              | .ok outs => "ok " ++ "!".intercalate (outs.map showChanO)
-            else if skipZ fs then
-              match concatenateZ bt τ [] with
-              | .error e => "err " ++ errName e
-              | .ok outs => "ok " ++ "!".intercalate (outs.map showChanO)
-            else match concatenate bt τ [] with
-            | .error e => "err " ++ errName e
-            | .ok outs => "ok " ++ "!".intercalate (outs.map showChan)
-          | _, _ => "bad-op") else "bad-op"
+      | .ok outs => "ok " ++ "!".intercalate (outs.map showChanO)
+    | none => "bad-op"
   | some "compile" =>
-    match first? fs, fRat? fs "tau", fStr? fs "mode", (fStr? fs "instrs").bind (fun s => (s.splitOn ";").mapM instr?) with
-    | some bt, some τ, some mode, some instrs =>
+    match fStr? fs "mode", (fStr? fs "instrs").bind (fun s => (s.splitOn ";").mapM instr?) with
+    | some mode, some instrs =>
       let sch : Option (Option (List Rat × List Nat)) :=
         if mode = "none" then some none
         else if mode = "sched" then
@@ -139,21 +115,13 @@ def step (line : String) : String :=
       match sch with
       | none => "bad-op"
       | some sch =>
-        if skipZ fs ∨ fNat? fs "dropzero" = some 1 ∨ (gapR fs).isSome then
-          match compileV (fNat? fs "dropzero" = some 1) (skipZ fs) bt (gapR fs) τ instrs sch with
-          | none => "unmodelled"
-          | some (.error e) => "err " ++ errName e
-          | some (.ok none) => "ok none"
-          | some (.ok (some outs)) =>
-            "ok " ++ "!".intercalate (outs.map fun o => toString o.1 ++ ":" ++ showChanO o.2)
-        else
-        match compile bt τ instrs sch with
+        match compileS (srcOf fs) instrs sch with
         | none => "unmodelled"
         | some (.error e) => "err " ++ errName e
         | some (.ok none) => "ok none"
         | some (.ok (some outs)) =>
-          "ok " ++ "!".intercalate (outs.map fun o => toString o.1 ++ ":" ++ showChan o.2)
-    | _, _, _, _ => "bad-op"
+          "ok " ++ "!".intercalate (outs.map fun o => toString o.1 ++ ":" ++ showChanO o.2)
+    | _, _ => "bad-op"
   | _ => "bad-op"
 
 def main : IO Unit := serve step
